@@ -118,16 +118,18 @@ CHECKS.update({
              'grows plus induction over calls.',
         ref='DESIGN.md section 4 C06'),
     'C08': dict(
-        text='mask_dict_password proved by structural induction: the '
-             'recursive call and mask_password are replaced by opaque '
-             'contracts that record their arguments; the real body is proved '
-             'for a one-item mapping with an ARBITRARY key (symbolic str with '
+        text='mask_dict_password: mask_password (C04) is replaced by an '
+             'opaque contract that records its arguments, nested mappings '
+             'go through the real code however it recurses; the real body '
+             'is proved for a one-item mapping with an ARBITRARY key (symbolic str with '
              'the 35-key scan, int, tuple, bytes) and every value kind, for a '
              'multi-item mapping (one output entry per input entry, order, '
              '`continue`), for non-dict Mapping types, empty mappings and '
              'non-mappings (TypeError); fresh output dict, argument and '
-             'reachable values unmodified (identity + content), secret '
-             'forwarded to nested calls. Key list compared with the '
+             'reachable values unmodified (identity + content), nested '
+             'results as the property prescribes with the same secret '
+             '(depth 2 in the proofs, deeper in the family). Key list '
+             'compared with the '
              'documented one. Bounded stand-in: 400 seeded nested mappings '
              'against an oracle written from the property.',
         note='str.lower and substring tests on its result are uninterpreted '
